@@ -2154,6 +2154,52 @@ theorem batchGet_result (s : PState) (ks : List Bytes) (k : Bytes) :
       cases s.store.get k <;> simp
   · simp [hk]
 
+/-! ## the commit point -/
+
+theorem primaryCommit_definite_err : ∀ (s : List Attempt) (c : Bool),
+    (primaryCommit s c).2 = .err false → (primaryCommit s c).1 = false
+  | [], c, h => by simp [primaryCommit] at h
+  | a :: rest, c, h => by
+    cases a with
+    | execLost => exact primaryCommit_definite_err rest true h
+    | lost => exact primaryCommit_definite_err rest c h
+    | keyErr =>
+      simp only [primaryCommit] at h ⊢
+      cases c <;> simp at h ⊢
+    | ok => simp [primaryCommit] at h
+
+theorem primaryCommit_ok : ∀ (s : List Attempt) (c : Bool),
+    (primaryCommit s c).2 = .ok → (primaryCommit s c).1 = true
+  | [], c, h => by simp [primaryCommit] at h
+  | a :: rest, c, h => by
+    cases a with
+    | execLost => exact primaryCommit_ok rest true h
+    | lost => exact primaryCommit_ok rest c h
+    | keyErr =>
+      simp only [primaryCommit] at h ⊢
+      cases c <;> simp at h ⊢
+    | ok => simp [primaryCommit]
+
+theorem primaryCommit_undetermined : ∀ (s : List Attempt) (c : Bool),
+    (primaryCommit s c).2 = .err true → ∀ a ∈ s, a = .execLost ∨ a = .lost
+  | [], _, _ => by simp
+  | a :: rest, c, h => by
+    cases a with
+    | execLost =>
+      intro x hx
+      rcases List.mem_cons.mp hx with h1 | h1
+      · exact Or.inl h1
+      · exact primaryCommit_undetermined rest true h x h1
+    | lost =>
+      intro x hx
+      rcases List.mem_cons.mp hx with h1 | h1
+      · exact Or.inr h1
+      · exact primaryCommit_undetermined rest c h x h1
+    | keyErr =>
+      simp only [primaryCommit] at h
+      cases c <;> simp at h
+    | ok => simp [primaryCommit] at h
+
 theorem down_pairwise : ∀ n, (down n).Pairwise (· > ·) ∧ ∀ g ∈ down n, 1 ≤ g ∧ g ≤ n
   | 0 => ⟨List.Pairwise.nil, by simp [down]⟩
   | n + 1 => by
